@@ -136,7 +136,7 @@ def execute(case):
         # (position-coded 1..L); equals the expression's own selection except where xarray's lazy
         # layer mis-composes it (C02 known finding D13c), in which case C11 judges the load it issued
         rows = [int(k) - 1 for k in np.atleast_1d(sel["rows"].values)]
-        model = selected_rows(op[1], L)
+        model = [k % L for k in op[1]] if op[0] == "vec" else selected_rows(op[1], L)
         agree = rows == model
         if "rows" in sel.dims and sel.sizes["rows"] != sel.variable.shape[sel.dims.index("rows")]:
             continue
@@ -211,6 +211,10 @@ def plan(tier):
                     rows = c02.full_alphabet(L) if (tier == "thorough" or L <= 4) else c02.ints(L) + c02.arrays(L) + c02.masks(L)
                     colreps = [None, ["i", 0], ["s", None, None, -1], ["a", [P - 1, 0]]]
                     ops = [["isel", r, c] for r in rows for c in colreps]
+                    # vectorised (pointwise) selections: every pair and triple of lines
+                    vecs = [[a, b] for a in range(L) for b in range(L)] + [[a, b, c] for a in range(L) for b in range(L) for c in range(L)]
+                    ops += [["vec", v, [(i * (P - 1)) % P if P > 1 else 0 for i in range(len(v))]] for v in vecs]
+                    ops += [["vec", [a - L, b], [0, P - 1]] for a in range(L) for b in range(L)]
                     first = True
                     for b in c02.batches(tc, L, P, rpc, ops, size=800):
                         b["check_open"] = first
@@ -228,7 +232,7 @@ def plan(tier):
 
 def run(res, tier, seed):
     res.rule = (
-        "rows alphabet of C02 (all ints, slices, int arrays len<=2, masks) x 4 column representatives x rpc 1..L+1 x L 1..4|6 x both types;"
+        "rows alphabet of C02 (all ints, slices, int arrays len<=2, masks) x 4 column representatives, plus every pointwise (vectorised) pair" " and triple of lines, x rpc 1..L+1 x L 1..4|6 x both types;"
         " each load's mcfs:// event log is checked against byte spans computed by independent arithmetic; plus one"
         " open_alos2 metadata-pass log per (type, L, P, rpc); plus the same loads on an image opened through an index cache that was"
         " written and first used with a different rpc (groups are those of the *requested* rpc); plus 14 selections on realistically sized"
